@@ -53,7 +53,7 @@ class Summary(object):
 
     def field(self, name, n):
         off = self.fs.soff(name)
-        ty = {1: 'unsigned char', 2: 'unsigned short', 4: 'unsigned int', 8: 'unsigned long'}[n]
+        ty = {1: 'unsigned char', 2: 'unsigned short', 4: 'unsigned int', 8: 'unsigned long long'}[n]
         return self.st.canon(mem.load_scalar(self.st, self.so, C(off), self.fs.ix.parse_type(ty)))
 
     def field_bytes(self, name, n):
